@@ -6,13 +6,13 @@ CHECKS = [
          text="Decides, for every sampling function of union/cut/intersection domains and boundaries, that the facts established about each "
               "returned point set propositionally imply the class's own membership formula on every path (abstract interpretation, helpers under "
               "call-site bindings); filtering samplers return only rows accepted on those rows; Translate/Rotate push-forward inverts the "
-              "pull-back; the dependent product samples A at the B points it returns. Geometry of primitives, tolerances and termination are NOT decided. Also: slot-wise return of one-point-per-parameter-row proposals, positive proposal counts, and the rules shared from C02/C05/C10/C13/C15/C17 on which sampling correctness rests. Shared in addition: membership tests leave the proposals untouched and read their own columns (C05), evaluated domains carry every constructor argument over (C17). Wave 9: no 0/0 for any requested count, quota loops end only on their quota, membership closeness tests name exactly the polygon's own sides, moved boundaries keep the pivot. Wave 10: the polygon perimeter walk evaluated on rings of 3 and 4 sides (every arc-length position placed, closing side included); fused forms (addcmul / lerp) of the interval formula.",
+              "pull-back; the dependent product samples A at the B points it returns. Geometry of primitives, tolerances and termination are NOT decided. Also: slot-wise return of one-point-per-parameter-row proposals, positive proposal counts, and the rules shared from C02/C05/C10/C13/C15/C17 on which sampling correctness rests. Shared in addition: membership tests leave the proposals untouched and read their own columns (C05), evaluated domains carry every constructor argument over (C17). Wave 9: no 0/0 for any requested count, quota loops end only on their quota, membership closeness tests name exactly the polygon's own sides, moved boundaries keep the pivot. Wave 10: the polygon perimeter walk evaluated on rings of 3 and 4 sides (every arc-length position placed, closing side included); fused forms (addcmul / lerp) of the interval formula. Wave 11: polygon rejection by the polygon's own membership test and a top-up triangle within the polygon; union samples mixed row-wise (C11).",
          note=_T + "Operand samplers/membership tests are correct (induction over the expression).",
          technique=_SA + "abstract interpretation over fact formulas + truth tables; operator-word term algebra for motions; abstract interpretation of sampling helpers with local closures and symbolic row counts"),
     dict(property_id="C02",
          text="Decides the row-layout discipline of the sampler layer: parameter-major replication primitive, admissible layout pairs at every join, "
               "per-row loops (params[i] only, loop order, cut to n, guards re-initialised), sampler algebra, definite assignment on all paths, and "
-              "row-count agreement of the domain operations by finite instantiation over (n, k). Run-time shapes depending on user functions/data are NOT decided. Also: constructor data never rewritten from call parameters, upper bound of topped-up counts, interval boundary grid for n = 1..8 by partial evaluation. Also: the grid helpers of the domain operations return n rows for every outcome of every membership test (evaluated on row-count models, n = 2..4), the data sampler's n is its first-axis length, quota loops end only on their quota. Wave 10: no non-static sampler stores a draw (C15); points copied for parameter rows as whole blocks in moved domains.",
+              "row-count agreement of the domain operations by finite instantiation over (n, k). Run-time shapes depending on user functions/data are NOT decided. Also: constructor data never rewritten from call parameters, upper bound of topped-up counts, interval boundary grid for n = 1..8 by partial evaluation. Also: the grid helpers of the domain operations return n rows for every outcome of every membership test (evaluated on row-count models, n = 2..4), the data sampler's n is its first-axis length, quota loops end only on their quota. Wave 10: no non-static sampler stores a draw (C15); points copied for parameter rows as whole blocks in moved domains. Wave 11: attached parameter columns unchanged (C12); clamped-up grid side counts (C10); masked rows replaced by the candidates of the same rows.",
          note=_T + "Count equalities by finite instantiation on a fixed grid (reported as such).",
          technique=_SA + "layout classification at join sites, loop-carried-state rule, definite assignment, row-count evaluation of expanded expressions; partial evaluation of small list/mask code; evaluation of helper functions on row-count value models over all membership outcomes"),
     dict(property_id="C04",
@@ -38,19 +38,19 @@ CHECKS = [
          text="Decides that every point-wise model routes its input through the name-based re-ordering before any use (taint/must-pass-through), the "
               "sanitiser itself, Parallel/Sequential composition structure, input-derived state, output labelling, the selection and join primitives "
               "(requested order of Space[[names]], column pairing of Points.joined) and the absence of size-dependent axis removal. Row "
-              "independence of arbitrary tensor code is NOT decided (re-arranging ops are reported UNDECIDED). Also: inputs whose variable names differ from the model's are rejected on every path. Also: Parallel's spaces by partial evaluation on overlapping parts; forward never writes into tensors that may alias the caller's. Wave 10: rank-bound matrix products on input-derived tensors; the sanitiser evaluated on rank-2 and rank-3 raw tensors.",
+              "independence of arbitrary tensor code is NOT decided (re-arranging ops are reported UNDECIDED). Also: inputs whose variable names differ from the model's are rejected on every path. Also: Parallel's spaces by partial evaluation on overlapping parts; forward never writes into tensors that may alias the caller's. Wave 10: rank-bound matrix products on input-derived tensors; the sanitiser evaluated on rank-2 and rank-3 raw tensors. Wave 11: value-free control flow, rows in the given order, batch axes restored after a flattening reshape.",
          note=_T + "Sub-models handed to compositions are torchphysics Models.",
          technique=_SA + "taint analysis on expanded path expressions, class-hierarchy attribute typing, axis-role interpretation, partial evaluation of the sanitiser on a table model over all orders of three variables"),
     dict(property_id="C12",
          text="Decides the pairing rules of Points/Space: column order == space order at every concatenation, cumulative variable offsets, index and "
               "space from one _compute_slice evaluation iterating the returned sub-space, space-preserving arithmetic, order-sensitive equality, "
-              "batch-axis-only repeat/unsqueeze. Tensor contents are NOT decided. Also: _compute_slice evaluated for 17 keys (names, lists, name slices with steps, Ellipsis, row picks); no receiver-changing in-place operator on Space / Points. Also: tuple keys reach the tensor as tuples, list keys stay untouched; no derived state on Points; Counter's `&` kept; joined refuses shared names; Space.dim by evaluation.",
+              "batch-axis-only repeat/unsqueeze. Tensor contents are NOT decided. Also: _compute_slice evaluated for 17 keys (names, lists, name slices with steps, Ellipsis, row picks); no receiver-changing in-place operator on Space / Points. Also: tuple keys reach the tensor as tuples, list keys stay untouched; no derived state on Points; Counter's `&` kept; joined refuses shared names; Space.dim by evaluation. Wave 11: iteration yields self[i]; Space equality evaluated on ordered mappings.",
          note=_T + "Counter/OrderedDict key-order semantics of CPython.",
          technique=_SA + "order pairing on expanded expressions, affine normal forms, partial evaluation of Space slicing on a four-variable space"),
     dict(property_id="C13",
          text="Decides the calling convention of UserFunction/DomainUserFunction: keyword-only invocation through one mapping, mapping = given ∪ default "
               "selections over self.args, dominating required-name check, tail alignment of defaults, copy-on-partial-evaluation, no aliasing of "
-              "mutable defaults. What the user's function computes is NOT decided. Also, by partial evaluation: defaults alignment for six signatures read from self.fun itself, necessary_args for five settings, order-free batch split; user containers are only read (C14). Also: call purity and unfiltered forwarding for every subclass of UserFunction. Wave 10: parameters are identified by their declared names whatever they are called; Points keep no derived state (C12).",
+              "mutable defaults. What the user's function computes is NOT decided. Also, by partial evaluation: defaults alignment for six signatures read from self.fun itself, necessary_args for five settings, order-free batch split; user containers are only read (C14). Also: call purity and unfiltered forwarding for every subclass of UserFunction. Wave 10: parameters are identified by their declared names whatever they are called; Points keep no derived state (C12). Wave 11: a wrapper method taking the user's names as ** declares no keyword-addressable parameter of its own (one finding).",
          note=_T + "Positional-or-keyword signatures (the property's quantifier).",
          technique=_SA + "entry families of argument mappings (iterable, key, membership condition, value) with merge order, dominance on paths, outcome typestate of partial evaluation, alias/effect rules"),
     dict(property_id="C15",
@@ -62,13 +62,13 @@ CHECKS = [
     dict(property_id="C16",
          text="Decides the index algebra of the data sets: one permutation value on all coupled tensors/axes, identical windows on coupled tensors, "
               "independent digits of the joint batch index with matching __len__, and exactly-once aggregation over the loader. Batches for concrete sizes "
-              "beyond the index algebra are NOT decided. Also: coverage of the wrap-around windows over one pass for batch sizes below and above the data-set size by finite instantiation of the window bounds. Also: the batch error is computed out of place (C04). Also: transparent loaders (data handed on as given, shape-only layout choice, no cached batches). Wave 10: constructor arguments of data conditions and loaders reach the base class (G-ARG).",
+              "beyond the index algebra are NOT decided. Also: coverage of the wrap-around windows over one pass for batch sizes below and above the data-set size by finite instantiation of the window bounds. Also: the batch error is computed out of place (C04). Also: transparent loaders (data handed on as given, shape-only layout choice, no cached batches). Wave 10: constructor arguments of data conditions and loaders reach the base class (G-ARG). Wave 11: independent index digits need the product length; the full-data loss is a pass over the loader; no stored loss (C14).",
          note=_T + "torch DataLoader visits indices 0..len-1 once.",
          technique=_SA + "evaluation identities for permutations, window descriptors, digit classification, helper inlining with conditional variants; numeric instantiation of extracted window-bound expressions"),
     dict(property_id="C03",
          text="Decides the autograd call discipline (sum-then-grad, create_graph), the affine component/offset pairing of div / laplacian / jac (incl. precomputed "
               "offset lists), the index tables of rot / sym_grad / convective / normal_derivative / matrix_div, zero short-circuits and accumulator dtype/device. "
-              "Numerical agreement with analytic derivatives is NOT decided. Also: control flow free of tensor values, no memoisation, graph test dominating every second derivative. Also: operators that accept any batch rank never reach one that addresses axis 1 from the front; custom autograd Functions save only (views of) their own arguments. Backward passes contain no power of a rectified value with a variable exponent. Wave 10: the graph test precedes the derivative of the same iteration; the join of per-variable gradients is row-wise for flat, 2-D and higher-rank batches (evaluated); the custom autograd Function of the DeepONet layers (C09).",
+              "Numerical agreement with analytic derivatives is NOT decided. Also: control flow free of tensor values, no memoisation, graph test dominating every second derivative. Also: operators that accept any batch rank never reach one that addresses axis 1 from the front; custom autograd Functions save only (views of) their own arguments. Backward passes contain no power of a rectified value with a variable exponent. Wave 10: the graph test precedes the derivative of the same iteration; the join of per-variable gradients is row-wise for flat, 2-D and higher-rank batches (evaluated); the custom autograd Function of the DeepONet layers (C09). Wave 11: helpers that evaluate a model and a user function hand over the tensors the model saw; per-function tracked copies (C04).",
          note=_T + "Rows of the model output depend only on the same input rows.",
          technique=_SA + "recurrences of loop-carried symbols (offset' = offset + dim, acc' = acc + term), affine index forms in polynomial normal form, last-axis vs axis-1 selection, symbolic list evaluation; guard dominance on paths"),
     dict(property_id="C06",
@@ -80,13 +80,13 @@ CHECKS = [
     dict(property_id="C09",
          text="Decides the contraction axis of the DeepONet output and the parameter/point meshgrid by an axis-role interpretation of reshape/transpose/matmul/"
               "repeat, the branch/trunk reshape agreement, autograd hygiene of the custom linear Function (only inputs saved, gradients from the required "
-              "operands) and the branch-cache protocol. Numerical equivalence is NOT decided. Also: forward passes neither change stored tensors in place nor flatten caller data with view; layer builders compared by partial evaluation. Also: collection batches by partial evaluation on unequal set sizes; per-function copies before tracking (C04). Wave 10: no part evaluates a network with gradient recording off.",
+              "operands) and the branch-cache protocol. Numerical equivalence is NOT decided. Also: forward passes neither change stored tensors in place nor flatten caller data with view; layer builders compared by partial evaluation. Also: collection batches by partial evaluation on unequal set sizes; per-function copies before tracking (C04). Wave 10: no part evaluates a network with gradient recording off. Wave 11: branch input layout (width, conv transposition by the axis domain, no size-guessed transposition).",
          note=_T,
          technique=_SA + "axis-role abstract interpretation, effect/ownership rules, sibling equivalence of the two layer builders by partial evaluation for 1-3 hidden layers"),
     dict(property_id="C10",
          text="Decides every primitive measure against the analytic table in rational normal form, non-negativity in a sign domain, the composition rules of "
               "union/cut/product/translate/rotate through public volume(), the user override, density-to-count conversion, absence of parameter-dependent "
-              "caching, and that flags survive partial evaluation. Documented estimates and third-party measures are NOT decided. Also: exclusive operand contributions of Boolean boundary density samplers, user-declared flags, truncated grid side counts, evaluated setter state. Wave 10: delivered rows lie in the combination (facts, C01); box readers use the interleaved layout (C18); topped-up counts cut to n (C02).",
+              "caching, and that flags survive partial evaluation. Documented estimates and third-party measures are NOT decided. Also: exclusive operand contributions of Boolean boundary density samplers, user-declared flags, truncated grid side counts, evaluated setter state. Wave 10: delivered rows lie in the combination (facts, C01); box readers use the interleaved layout (C18); topped-up counts cut to n (C02). Wave 11: measures combine per-row shape quantities by broadcasting only; motion wrappers hand the density on.",
          note=_T + "radius > 0, upper >= lower.",
          technique=_SA + "symbolic tensor evaluation to rational functions, sign domain, taint of cached values; abstract fact sets of sampler contributions checked for joint satisfiability"),
     dict(property_id="C11",
@@ -116,7 +116,7 @@ CHECKS = [
     dict(property_id="C19",
          text="NARROW: decides that learnable state is registered (complete state_dict), that the callbacks save the right object at the right hook under "
               "distinct names without buffering, that solver hooks leave optimizer/scheduler state alone and restore the step counter, and inventories "
-              "step-written plain state that no checkpoint captures. Everything Lightning does and bit-exact resume are NOT decided. Also: restore protocol passed through unchanged (no assign=True, nothing removed from checkpoints), no persistent buffer used as a cache, no parameter-data writes in hooks, callbacks restore the train/eval mode. Also: every checkpoint of the callback carries the configured content; saved weight mappings are not edited. Wave 10: checkpoint hooks remove nothing also through aliases of the mapping; strict loading stays on.",
+              "step-written plain state that no checkpoint captures. Everything Lightning does and bit-exact resume are NOT decided. Also: restore protocol passed through unchanged (no assign=True, nothing removed from checkpoints), no persistent buffer used as a cache, no parameter-data writes in hooks, callbacks restore the train/eval mode. Also: every checkpoint of the callback carries the configured content; saved weight mappings are not edited. Wave 10: checkpoint hooks remove nothing also through aliases of the mapping; strict loading stays on. Wave 11: checkpoint entries are not rewritten; no in-place change of module tensors outside constructors.",
          note=_T + "Lightning restores module/optimizer/scheduler state.",
          technique=_SA + "ownership and effect inventory, hook-order rules (state restored between on_fit_start and on_train_start), state layout fixed by constructors; override / hook inventory over the class table"),
     dict(property_id="C20",
